@@ -384,6 +384,9 @@ func returnsOf(fn *ssa.Function) []*ssa.Return {
 		if len(b.Instrs) == 0 {
 			continue
 		}
+		if b.Index != 0 && len(b.Preds) == 0 {
+			continue // the synthetic recover block of functions with defers: unreachable in normal flow
+		}
 		if r, ok := b.Instrs[len(b.Instrs)-1].(*ssa.Return); ok {
 			out = append(out, r)
 		}
